@@ -1,3 +1,383 @@
-/-! C17 property theorems — stub (not built yet). -/
+import TTModel.C17_Codec
+import TTModel.C17_Resume
+import TTGen.C17_StateKeys
+import TTProofs.Lemmas.C17_Codec
+/-!
+# C17 — a checkpoint restores the whole run state; resuming continues the same run
+
+* `codec_roundtrip` and the lemmas beside it: what `json.dump(cls=ParameterEncoder)` followed by
+  `json.load(cls=TensorDecoder)` does to ANY state value (unbounded nesting) — the identity except
+  for the coercions listed, each with the operation that undoes it.
+* `keys_read_subset_written` (+ `load_after_state_dict`, `restore_through_checkpoint`): about the
+  table `TTGen.C17_StateKeys.classes` REGENERATED from the source on every run.
+* `optimizer_state_*`: torch's optimiser state is keyed by integers; what a checkpoint does to it.
+* `resume_same_run` (+ `_iff`, `all_loops_resume`): about `TTGen.C17_StateKeys.loops`.
+-/
 namespace TTProps.C17
+open TT.C17 TTGen.C17_StateKeys
+
+/-- every state_dict / load_state_dict / checkpointing loop had a recognised shape -/
+theorem translator_recognised : translatorOk = true := by decide
+
+/-! ## the codec -/
+
+/-- **codec_roundtrip**: reading back what was written yields the canonical image of the value,
+for every value of the universe (any nesting depth, any mixture of containers, tensors and
+parameters); `none` = reading back raises. -/
+theorem codec_roundtrip (dflt : DType) (v : Val) : decode dflt (encode v) = canon dflt v :=
+  decode_encode dflt v
+
+/-- the canonical image is the value itself when it contains no tuple, no `Parameter` object, only
+string keys without repetition and no dictionary posing as an encoded tensor: on such values a
+checkpoint is lossless — dtypes, `nn.Parameter` flags and data included. -/
+theorem codec_lossless_on_plain (dflt : DType) (v : Val) (h : Plain v = true) :
+    decode dflt (encode v) = some v := by
+  rw [codec_roundtrip, canon_plain dflt v h]
+
+example : Plain (.dict (.cons (.str "step_size") (.float 4576918229304087675)
+    (.cons (.str "mean") (.tensor .float32 true (.list (.cons (.float 0) (.cons (.float 1) .nil)))) .nil))) = true := by
+  decide
+
+/-- a tensor keeps its dtype and its `nn.Parameter` flag (data canonicalised); the one exception is
+an `nn.Parameter` of a non floating point dtype, which `TensorDecoder` cannot rebuild -/
+theorem tensor_roundtrip (dflt dt : DType) (nn : Bool) (data : Val) (h : nn = true → dt.isFloat = true) :
+    decode dflt (encode (.tensor dt nn data)) = (canon dflt data).map (.tensor dt nn) := by
+  rw [codec_roundtrip]
+  have h1 : (nn && !dt.isFloat) = false := by
+    cases nn <;> simp_all
+  simp [canon, h1]
+
+/-- listed coercion 1: a tuple comes back as a list (`Val.toTuple` undoes it) -/
+theorem coercion_tuple (dflt : DType) (xs : Vals) : canon dflt (.tuple xs) = canon dflt (.list xs) := rfl
+
+theorem nat_repr_ne_type (n : Nat) : n.repr ≠ "type" := by
+  intro h
+  have h1 : n.repr.toList = "type".toList := by rw [h]
+  rw [Nat.toList_repr] at h1
+  have : 't' ∈ Nat.toDigits 10 n := by rw [h1]; simp
+  have := Nat.isDigit_of_mem_toDigits (by omega) (by omega) this
+  revert this; decide
+
+theorem int_repr_ne_type (n : Int) : n.repr ≠ "type" := by
+  rw [Int.repr_eq_if]
+  split
+  · exact nat_repr_ne_type _
+  · intro h
+    have h1 := congrArg String.toList h
+    simp at h1
+
+/-- listed coercion 2: an integer key comes back as the string that spells it -/
+theorem coercion_int_key (dflt : DType) (n : Int) (v : Val) :
+    canon dflt (.dict (.cons (.int n) v .nil)) =
+      (canon dflt v).map fun v' => .dict (.cons (.str n.repr) v' .nil) := by
+  simp only [canon, canonKVs]
+  cases canon dflt v with
+  | none => rfl
+  | some v' =>
+      simp [KVs.upsert, objectHook, KVs.lookup, isTensorTag, int_repr_ne_type]
+
+/-- listed coercion 3: a `Parameter` comes back as its JSON dictionary, and `Parameter.from_json`
+(as called by `HMCOperator._load_state_dict`) rebuilds it with dtype and `nn` flag -/
+theorem coercion_parameter (dflt : DType) (id : String) (dt : DType) (nn : Bool) (data : Val) :
+    (canon dflt (.param id dt nn data)).bind paramOfDict = (canon dflt data).map (.param id dt nn) := by
+  simp only [canon]
+  cases canon dflt data with
+  | none => rfl
+  | some d => simp [paramOfDict, KVs.lookup, parse_name]
+
+/-! ## state_dict / load_state_dict tables (generated) -/
+
+/-- **keys_read_subset_written**: for every class with a state_dict/load_state_dict pair in
+`torchtree/optim` and `torchtree/inference`: every key `load_state_dict` reads is written by the
+matching `state_dict` from the same attribute and under a condition that implies the read;
+every written key that carries run state (all but `id`) is read back into that attribute. -/
+theorem keys_read_subset_written : ∀ c ∈ classes, c.ok = true := by decide
+
+theorem distinctStr_filter_map {α : Type} (f : α → String) (p : α → Bool) :
+    ∀ l : List α, distinctStr (l.map f) = true → distinctStr ((l.filter p).map f) = true := by
+  intro l
+  induction l with
+  | nil => intro _; rfl
+  | cons a r ih =>
+      intro h
+      simp only [List.map, distinctStr, Bool.and_eq_true, Bool.not_eq_true', List.contains_eq_mem,
+        decide_eq_false_iff_not] at h
+      by_cases hp : p a = true
+      · simp only [List.filter, hp, List.map, distinctStr, Bool.and_eq_true, Bool.not_eq_true',
+          List.contains_eq_mem, decide_eq_false_iff_not]
+        refine ⟨fun hm => h.1 ?_, ih h.2⟩
+        obtain ⟨b, hb, hfb⟩ := List.mem_map.mp hm
+        exact List.mem_map.mpr ⟨b, (List.mem_filter.mp hb).1, hfb⟩
+      · simp [List.filter, hp, ih h.2]
+
+/-- what a consistent table means (lifts the finite check to every object state): calling
+`load_state_dict(obj.state_dict())` on a freshly built object never raises, gives every attribute
+named by an executed read the value the saved object had there, and touches nothing else.
+`en` interprets the conditions (`hasattr`, `is not None`, non-empty) on the object. -/
+theorem load_after_state_dict (c : ClassKeys) (hc : c.ok = true) (hd : c.delegateW = none)
+    (en : String → Bool) (hen : en "" = true) (st st0 : Attrs) :
+    ∃ st', load c en (stateDict c en st) st0 = some st' ∧
+      (∀ r ∈ c.read, en r.cond = true → st' r.attr = st r.attr) ∧
+      (∀ a, (∀ r ∈ c.read, en r.cond = true → r.attr ≠ a) → st' a = st0 a) := by
+  unfold ClassKeys.ok at hc
+  rw [hd] at hc
+  cases hR : c.delegateR with
+  | some b => simp [hR] at hc
+  | none =>
+    simp only [hR, Bool.and_eq_true] at hc
+    obtain ⟨⟨⟨⟨hread, _⟩, _⟩, hdistR⟩, _⟩ := hc
+    have hpresent : ∀ e ∈ c.read.filter (fun e => en e.cond),
+        (stateDict c en st).lookup e.key = some (st e.attr) := by
+      intro e he
+      obtain ⟨hm, hen_e⟩ := List.mem_filter.mp he
+      have := List.all_eq_true.mp hread e hm
+      cases hf : findKey e.key c.written with
+      | none => simp [hf] at this
+      | some w =>
+          simp only [hf, Bool.and_eq_true, beq_iff_eq] at this
+          obtain ⟨hattr, hcond⟩ := this
+          have hw : en w.cond = true := by
+            simp only [condOk, Bool.or_eq_true, beq_iff_eq, Bool.and_eq_true] at hcond
+            rcases hcond with h | h
+            · rw [← h]; exact hen_e
+            · rw [h.1]; exact hen
+          rw [← hattr]
+          exact lookup_kvsOf st e.key (fun e => en e.cond) c.written w hf hw
+    obtain ⟨st', hl, hin, hout⟩ := loadEntries_spec (stateDict c en st)
+      (c.read.filter fun e => en e.cond) st0
+      (fun e he => ⟨_, hpresent e he⟩)
+      (distinctStr_filter_map (·.attr) _ c.read hdistR)
+    refine ⟨st', hl, ?_, ?_⟩
+    · intro r hr hen_r
+      have hm : r ∈ c.read.filter (fun e => en e.cond) := List.mem_filter.mpr ⟨hr, hen_r⟩
+      have := hin r hm
+      rw [hpresent r hm] at this
+      exact Option.some.inj this
+    · intro a ha
+      apply hout
+      intro e he
+      obtain ⟨hm, hen_e⟩ := List.mem_filter.mp he
+      exact ha e hm hen_e
+
+/-- every generated class (delegating ones excepted: their dictionary is torch's own) has the
+restoring behaviour above -/
+theorem every_class_restores (c : ClassKeys) (hc : c ∈ classes) (hd : c.delegateW = none)
+    (en : String → Bool) (hen : en "" = true) (st st0 : Attrs) :
+    ∃ st', load c en (stateDict c en st) st0 = some st' ∧
+      (∀ r ∈ c.read, en r.cond = true → st' r.attr = st r.attr) :=
+  let ⟨st', h1, h2, _⟩ := load_after_state_dict c (keys_read_subset_written c hc) hd en hen st st0
+  ⟨st', h1, h2⟩
+
+/-- non-vacuity: the MCMC table is in the generated list, does not delegate, and with concrete
+attribute values the load really returns them -/
+example : ∃ c ∈ classes, c.name = "MCMC" ∧ c.delegateW = none ∧
+    ((load c (fun _ => true) (stateDict c (fun _ => true) (fun a => .str a)) (fun _ => .none)).map
+      fun st' => (encode (st' "self._epoch")).ctorIdx) = some (encode (.str "x")).ctorIdx := by
+  decide
+
+theorem mapM_kvsOf (dflt : DType) (st cv : Attrs) : ∀ l : List KeyE,
+    (∀ e ∈ l, canon dflt (st e.attr) = some (cv e.attr)) →
+    (kvsOf st l).mapM (canon dflt) = some (kvsOf cv l) := by
+  intro l
+  induction l with
+  | nil => intro _; rfl
+  | cons e r ih =>
+      intro h
+      simp [kvsOf, KVs.mapM, h e List.mem_cons_self, ih (fun e' he' => h e' (List.mem_cons_of_mem _ he'))]
+
+theorem distinctFrom_kvsOf (st : Attrs) : ∀ (l : List KeyE) (seen : List String),
+    distinctStr (l.map (·.key)) = true → (∀ e ∈ l, e.key ∉ seen) →
+    (kvsOf st l).distinctFrom seen = true := by
+  intro l
+  induction l with
+  | nil => intro _ _ _; rfl
+  | cons e r ih =>
+      intro seen hd hs
+      simp only [List.map, distinctStr, Bool.and_eq_true, Bool.not_eq_true', List.contains_eq_mem,
+        decide_eq_false_iff_not] at hd
+      simp only [kvsOf, KVs.distinctFrom, Key.toStr_str, Bool.and_eq_true, Bool.not_eq_true',
+        List.contains_eq_mem, decide_eq_false_iff_not]
+      refine ⟨hs e List.mem_cons_self, ih (e.key :: seen) hd.2 ?_⟩
+      intro e' he' hm
+      rcases List.mem_cons.mp hm with h | h
+      · exact hd.1 (List.mem_map.mpr ⟨e', he', h⟩)
+      · exact hs e' (List.mem_cons_of_mem _ he') h
+
+theorem keys_kvsOf (st : Attrs) : ∀ l : List KeyE, (kvsOf st l).keys = l.map (·.key) := by
+  intro l
+  induction l with
+  | nil => rfl
+  | cons e r ih => simp [kvsOf, KVs.keys, ih]
+
+/-- the dictionary of a consistent class goes through the file value by value -/
+theorem canon_state_dict (dflt : DType) (st cv : Attrs) (l : List KeyE)
+    (hdist : distinctStr (l.map (·.key)) = true) (htype : (l.map (·.key)).contains "type" = false)
+    (hv : ∀ e ∈ l, canon dflt (st e.attr) = some (cv e.attr)) :
+    canon dflt (.dict (kvsOf st l)) = some (.dict (kvsOf cv l)) := by
+  simp only [canon]
+  rw [canonKVs_distinct dflt (kvsOf st l) .nil [] (distinctFrom_kvsOf st l [] hdist (by simp))
+    (by simp [KVs.keys]), mapM_kvsOf dflt st cv l hv]
+  have : (kvsOf cv l).lookup "type" = none := by
+    apply KVs.lookup_none_of_not_mem
+    rw [keys_kvsOf]
+    simpa using htype
+  simp [KVs.nil_append, objectHook, this, isTensorTag]
+
+/-- **restore_through_checkpoint**: state_dict → file → `load_state_dict` on a freshly built object,
+for every generated class: never raises, and every attribute named by an executed read holds the
+canonical image (`cv`) of what the saved object had there — so the restart is lossless exactly
+when each attribute's loader undoes the listed coercions of its value
+(`deque(list)`, `torch.tensor(list)`, `Parameter.from_json`, integer keys). -/
+theorem restore_through_checkpoint (dflt : DType) (c : ClassKeys) (hc : c ∈ classes)
+    (hd : c.delegateW = none) (en : String → Bool) (hen : en "" = true) (st cv st0 : Attrs)
+    (hv : ∀ w ∈ c.written, canon dflt (st w.attr) = some (cv w.attr)) :
+    ∃ d st', decode dflt (encode (.dict (stateDict c en st))) = some (.dict d) ∧
+      load c en d st0 = some st' ∧
+      (∀ r ∈ c.read, en r.cond = true → st' r.attr = cv r.attr) := by
+  have hok := keys_read_subset_written c hc
+  have hok' := hok
+  unfold ClassKeys.ok at hok'
+  rw [hd] at hok'
+  cases hR : c.delegateR with
+  | some b => simp [hR] at hok'
+  | none =>
+    simp only [hR, Bool.and_eq_true, Bool.not_eq_true'] at hok'
+    obtain ⟨⟨⟨_, hdistW⟩, _⟩, htype⟩ := hok'
+    have hdist' := distinctStr_filter_map (·.key) (fun e => en e.cond) c.written hdistW
+    have htype' : ((c.written.filter fun e => en e.cond).map (·.key)).contains "type" = false := by
+      simp only [List.contains_eq_mem, decide_eq_false_iff_not] at htype ⊢
+      intro hm
+      obtain ⟨b, hb, hfb⟩ := List.mem_map.mp hm
+      exact htype (List.mem_map.mpr ⟨b, (List.mem_filter.mp hb).1, hfb⟩)
+    have hcanon := canon_state_dict dflt st cv (c.written.filter fun e => en e.cond) hdist' htype'
+      (fun e he => hv e (List.mem_filter.mp he).1)
+    obtain ⟨st', h1, h2, _⟩ := load_after_state_dict c hok hd en hen cv st0
+    exact ⟨_, st', by rw [codec_roundtrip]; exact hcanon, h1, h2⟩
+
+/-! ## torch optimiser state: keyed by parameter index -/
+
+theorem lookup_type_allInt : ∀ d : KVs, d.allInt = true → d.strKeys.lookup "type" = none
+  | .nil, _ => rfl
+  | .cons (.int n) v r, h => by
+      simp only [KVs.allInt] at h
+      simp [KVs.strKeys, KVs.lookup, int_repr_ne_type, lookup_type_allInt r h]
+  | .cons (.str _) _ _, h => by simp [KVs.allInt] at h
+
+/-- how the `"state"` dictionary of a torch optimiser (integer keys, one per parameter) comes back -/
+theorem optimizer_state_through_codec (dflt : DType) (state : KVs) (hint : state.allInt = true)
+    (hdist : state.distinctFrom [] = true) (d : KVs)
+    (h : decode dflt (encode (.dict state)) = some (.dict d)) :
+    ∃ d0 : KVs, d = d0.strKeys ∧ d0.allInt = true ∧
+      ∀ i, attached d0 i = (attached state i).bind (canon dflt) := by
+  rw [codec_roundtrip] at h
+  simp only [canon] at h
+  rw [canonKVs_distinct dflt state .nil [] hdist (by simp [KVs.keys])] at h
+  cases hm : state.mapM (canon dflt) with
+  | none => simp [hm] at h
+  | some d1 =>
+      obtain ⟨d0, hd0, hall, hnone, hsome⟩ := KVs.mapM_strKeys (canon dflt) state d1 hm
+      rw [hint] at hall
+      simp only [hm, Option.map_some, KVs.nil_append, Option.bind_some] at h
+      rw [hd0] at h
+      simp only [objectHook, lookup_type_allInt d0 hall, isTensorTag] at h
+      simp only [Bool.false_eq_true, ↓reduceIte, Option.some.injEq, Val.dict.injEq] at h
+      refine ⟨d0, h.symm, hall, ?_⟩
+      intro i
+      unfold attached
+      cases hl : state.lookupKey (.int i) with
+      | none => simp [(hnone _).mpr hl]
+      | some v =>
+          obtain ⟨v', hv', hd'⟩ := hsome _ _ hl
+          simp [hv', hd']
+
+/-- the code gives the integer keys back where torch state keyed by integers is reloaded
+(`Optimizer.load_state_dict` for `"optimizer"`, `Scheduler.load_state_dict`) -/
+theorem optimizer_int_keys_restored : intKeysRestored classes = true := by decide
+
+/-- **unrepaired path** (`optimizer.load_state_dict(saved["optimizer"])` as read from the file):
+no parameter finds its moments / step count — torch files them under the string keys and every
+parameter continues from empty state. -/
+theorem optimizer_state_detached_by_json (dflt : DType) (state : KVs) (hint : state.allInt = true)
+    (hdist : state.distinctFrom [] = true) (d : KVs)
+    (h : decode dflt (encode (.dict state)) = some (.dict d)) (i : Int) :
+    attached d i = none := by
+  obtain ⟨d0, hd0, _, _⟩ := optimizer_state_through_codec dflt state hint hdist d h
+  rw [hd0]
+  exact KVs.lookupKey_int_strKeys i d0
+
+/-- **repaired path** (integer keys given back before torch's `load_state_dict`): every parameter
+index finds exactly the canonical image of the state it had -/
+theorem optimizer_state_attached_after_intKeys (dflt : DType) (state : KVs) (hint : state.allInt = true)
+    (hdist : state.distinctFrom [] = true) (d : KVs)
+    (h : decode dflt (encode (.dict state)) = some (.dict d)) (i : Int) :
+    attached d.intKeys i = (attached state i).bind (canon dflt) := by
+  obtain ⟨d0, hd0, hall, hatt⟩ := optimizer_state_through_codec dflt state hint hdist d h
+  rw [hd0, KVs.intKeys_strKeys d0 hall]
+  exact hatt i
+
+/-- non-vacuity: a two-parameter Adam-like state satisfies the hypotheses -/
+example : (KVs.cons (.int 0) (.dict (.cons (.str "step") (.tensor .float32 false (.float 0)) .nil))
+    (.cons (.int 1) (.dict .nil) .nil)).allInt = true := by decide
+example : (KVs.cons (.int 0) (.dict .nil) (.cons (.int 1) (.dict .nil) .nil)).distinctFrom [] = true := by
+  simp [KVs.distinctFrom]
+
+/-! ## the iteration counter -/
+
+/-- **resume_same_run**: if the checkpoint written during iteration `k` stores the counter of the
+NEXT iteration, then for every deterministic step function, every number of iterations, every
+interruption point `k ≤ iterations` and every initial state: the states visited up to the
+checkpoint followed by the states visited by the run restarted from it (with the state restored
+to what it was: `hs`) are exactly the (iteration, state) sequence of the uninterrupted run. -/
+theorem resume_same_run {S : Type} (step : Nat → S → S) (l : LoopSpec) (hl : l.incBeforeSave = true)
+    (iterations k : Nat) (hk : k ≤ iterations) (s0 restored : S)
+    (hs : restored = stateAfter step 1 k s0) :
+    fullRun step iterations s0 =
+      runFrom step 1 k s0 ++ resumedRun step iterations (savedCounter l k) restored := by
+  unfold fullRun resumedRun savedCounter
+  rw [hl, hs]
+  have h1 : iterations = k + (iterations - k) := by omega
+  have h2 : iterations + 1 - (k + 1) = iterations - k := by omega
+  simp only [↓reduceIte]
+  rw [h2, Nat.add_comm k 1]
+  conv => lhs; rw [h1]
+  exact runFrom_append step k (iterations - k) 1 s0
+
+/-- … and only then: a checkpoint that stores the counter of the iteration just completed makes
+the restarted run one pass longer (it repeats iteration `k`), whatever the step function. -/
+theorem resume_same_run_iff {S : Type} (step : Nat → S → S) (l : LoopSpec)
+    (iterations k : Nat) (hk : k ≤ iterations) (s0 : S) :
+    fullRun step iterations s0 =
+      runFrom step 1 k s0 ++ resumedRun step iterations (savedCounter l k) (stateAfter step 1 k s0)
+    ↔ l.incBeforeSave = true := by
+  constructor
+  · intro h
+    cases hb : l.incBeforeSave with
+    | true => rfl
+    | false =>
+        exfalso
+        have hlen := congrArg List.length h
+        simp only [fullRun, resumedRun, savedCounter, hb, List.length_append, length_runFrom] at hlen
+        simp at hlen
+        omega
+  · intro hl
+    exact resume_same_run step l hl iterations k hk s0 _ rfl
+
+/-- every checkpointing loop found in the source advances the counter before it writes -/
+theorem loops_store_next_iteration : ∀ l ∈ loops, l.incBeforeSave = true := by decide
+
+/-- **all_loops_resume**: `Optimizer._run`, `Optimizer._run_closure`, `MCMC.run` (whatever the
+translator found) continue the same run after a restart -/
+theorem all_loops_resume {S : Type} (l : LoopSpec) (hmem : l ∈ loops) (step : Nat → S → S)
+    (iterations k : Nat) (hk : k ≤ iterations) (s0 : S) :
+    fullRun step iterations s0 =
+      runFrom step 1 k s0 ++ resumedRun step iterations (savedCounter l k) (stateAfter step 1 k s0) :=
+  resume_same_run step l (loops_store_next_iteration l hmem) iterations k hk s0 _ rfl
+
+/-- non-vacuity: a step function that depends on the iteration label and on the state;
+6 iterations interrupted after the 4th -/
+example : fullRun (fun e s => e * s + 1) 6 1 =
+    runFrom (fun e s => e * s + 1) 1 4 1 ++
+      resumedRun (fun e s => e * s + 1) 6 (savedCounter ⟨"x", true⟩ 4) (stateAfter (fun e s => e * s + 1) 1 4 1) := by
+  decide
+
 end TTProps.C17
